@@ -32,6 +32,11 @@ def client_op(kind, variant, who):
             return {"op": "UpdateXattrs", "coll": COLL, "key": KEY, "casc": "snap", "sets": sets}
         if kind == "set":
             return {"op": "SetXattrs", "coll": COLL, "key": KEY, "sets": {xn: {"t": "x1", "mc": False, "mh": False}}}
+    if variant == "kvopt" and kind == "set":
+        # blind writes with options: they must still produce a new version that conditional writers see
+        return {"op": "Set", "coll": COLL, "key": KEY, "body": "N100", "pres": True, "exp": "E1", "h": "h2" if who == "p2" else ""}
+    if variant == "kvopt" and kind == "incr":
+        return {"op": "Incr", "coll": COLL, "key": KEY, "amt": 2, "def": 0, "exp": "E1", "h": "h2" if who == "p2" else ""}
     return {
         "set": {"op": "Set", "coll": COLL, "key": KEY, "body": "N100", "h": "h2" if who == "p2" else ""},
         "casw": {"op": "WriteCas", "coll": COLL, "key": KEY, "casc": "snap", "body": "N1"},
@@ -169,8 +174,10 @@ def run(tier, seed, vh, only_paths=None, mode=None):
             for i, sc in enumerate(scheds):
                 variants = ["kv"]
                 if scen in ("race", "race3"):
-                    variants = ["kv", "subdoc", "xattr", "xtomb"]
+                    variants = ["kv", "subdoc", "xattr", "xtomb", "kvopt"]
                 for v in variants:
+                    if v == "kvopt" and not set(sc["prog"].values()) & {"set", "incr"}:
+                        continue
                     if v == "subdoc" and not set(sc["prog"].values()) <= {"update", "casw", "incr"}:
                         continue
                     if v in ("xattr", "xtomb") and not set(sc["prog"].values()) <= {"update", "casw", "set"}:
